@@ -29,33 +29,36 @@ def dropRigid : GoVal → Bool
   | v => isRec v
 
 mutual
-def GoVal.norm : GoVal → GoVal
-  | .drop v => if dropRigid v then .drop v else norm v
-  | .slice _ xs => .slice .any (normList xs)
-  | .array _ xs => .slice .any (normList xs)
-  | .map kt vt kvs => if isRec (.map kt vt kvs) then .map kt vt kvs else .map kt .any (normKVs kvs)
+/-- the normal form; `d`: also resolve drops nested in containers (`d = false` keeps every drop) -/
+def GoVal.norm (d : Bool) : GoVal → GoVal
+  | .drop v => if !d || dropRigid v then .drop v else norm d v
+  | .slice _ xs => .slice .any (normList d xs)
+  | .array _ xs => .slice .any (normList d xs)
+  | .map kt vt kvs => if isRec (.map kt vt kvs) then .map kt vt kvs else .map kt .any (normKVs d kvs)
   | v => v
-def GoVal.normList : List GoVal → List GoVal
+def GoVal.normList (d : Bool) : List GoVal → List GoVal
   | [] => []
-  | x :: xs => norm x :: normList xs
-def GoVal.normKVs : List (GoVal × GoVal) → List (GoVal × GoVal)
+  | x :: xs => norm d x :: normList d xs
+def GoVal.normKVs (d : Bool) : List (GoVal × GoVal) → List (GoVal × GoVal)
   | [] => []
-  | (k, v) :: r => (k, norm v) :: normKVs r
+  | (k, v) :: r => (k, norm d v) :: normKVs d r
 end
 
+variable {d : Bool}
+
 /-- same Liquid value, possibly different Go representation -/
-def RepEq (a b : GoVal) : Prop := a.norm = b.norm
+def RepEq (d : Bool) (a b : GoVal) : Prop := a.norm d = b.norm d
 
-theorem RepEq.refl (a : GoVal) : RepEq a a := rfl
-theorem RepEq.symm {a b : GoVal} (h : RepEq a b) : RepEq b a := Eq.symm h
-theorem RepEq.trans {a b c : GoVal} (h : RepEq a b) (h' : RepEq b c) : RepEq a c := Eq.trans h h'
+theorem RepEq.refl (a : GoVal) : RepEq d a a := rfl
+theorem RepEq.symm {a b : GoVal} (h : RepEq d a b) : RepEq d b a := Eq.symm h
+theorem RepEq.trans {a b c : GoVal} (h : RepEq d a b) (h' : RepEq d b c) : RepEq d a c := Eq.trans h h'
 
-theorem normList_eq_map (xs : List GoVal) : normList xs = xs.map norm := by
+theorem normList_eq_map (xs : List GoVal) : normList d xs = xs.map (norm d) := by
   induction xs with
   | nil => rfl
   | cons x xs ih => simp [normList, ih]
 
-theorem normKVs_eq_map (kvs : List (GoVal × GoVal)) : normKVs kvs = kvs.map (fun kv => (kv.1, norm kv.2)) := by
+theorem normKVs_eq_map (kvs : List (GoVal × GoVal)) : normKVs d kvs = kvs.map (fun kv => (kv.1, norm d kv.2)) := by
   induction kvs with
   | nil => rfl
   | cons kv kvs ih => obtain ⟨k, v⟩ := kv; simp [normKVs, ih]
@@ -77,7 +80,7 @@ theorem isRec_iff (v : GoVal) : isRec v = true ↔
   · rintro ⟨cyc, rest, rfl⟩
     simp
 
-theorem norm_of_isRec {v : GoVal} (h : isRec v = true) : v.norm = v := by
+theorem norm_of_isRec {v : GoVal} (h : isRec v = true) : v.norm d = v := by
   obtain ⟨cyc, rest, rfl⟩ := (isRec_iff v).mp h
   rw [norm]; simp [h]
 
@@ -91,7 +94,7 @@ theorem isRec_not_map_priv {kt kvs} : isRec (.map kt .priv kvs) = false := by
   | true => exact absurd (isRec_map_any h) (by simp)
 
 /-- a normal form is never the unexported counter map -/
-theorem norm_ne_priv : ∀ (v : GoVal) (k : Ty) (c : List (GoVal × GoVal)), v.norm ≠ .map k .priv c
+theorem norm_ne_priv : ∀ (v : GoVal) (k : Ty) (c : List (GoVal × GoVal)), v.norm d ≠ .map k .priv c
   | .drop v, k, c => by
     rw [norm]
     split
@@ -109,7 +112,7 @@ theorem norm_ne_priv : ∀ (v : GoVal) (k : Ty) (c : List (GoVal × GoVal)), v.n
   | .struct _, _, _ | .time _, _, _ => by simp [norm]
 
 /-- the only value with the normal form of a `forloop` record is the record itself -/
-theorem norm_eq_rec {r : GoVal} (hr : isRec r = true) : ∀ w : GoVal, w.norm = r → w = r
+theorem norm_eq_rec {r : GoVal} (hr : isRec r = true) : ∀ w : GoVal, w.norm d = r → w = r
   | .drop u, h => by
     obtain ⟨cyc, rest, rfl⟩ := (isRec_iff r).mp hr
     rw [norm] at h
@@ -137,18 +140,18 @@ theorem norm_eq_rec {r : GoVal} (hr : isRec r = true) : ∀ w : GoVal, w.norm = 
   | .struct _, h | .time _, h => by simpa [norm] using h
 
 /-- related values are both `forloop` records (and then identical) or neither is -/
-theorem RepEq.rec_eq {a b : GoVal} (h : RepEq a b) (hr : isRec a = true ∨ isRec b = true) : a = b := by
+theorem RepEq.rec_eq {a b : GoVal} (h : RepEq d a b) (hr : isRec a = true ∨ isRec b = true) : a = b := by
   rcases hr with hr | hr
   · exact (norm_eq_rec hr b (by rw [← h, norm_of_isRec hr])).symm
   · exact norm_eq_rec hr a (by rw [h, norm_of_isRec hr])
 
 /-! ## `norm` is idempotent -/
 
-theorem dropRigid_false_norm_eq {v : GoVal} : (GoVal.drop v).norm = if dropRigid v then .drop v else v.norm := by
+theorem dropRigid_false_norm_eq {v : GoVal} : (GoVal.drop v).norm d = if !d || dropRigid v then .drop v else v.norm d := by
   rw [norm]
 
-theorem isRec_norm_map {kt : Ty} {kvs : List (GoVal × GoVal)} : isRec (.map kt .any (normKVs kvs)) = false := by
-  cases h : isRec (.map kt .any (normKVs kvs)) with
+theorem isRec_norm_map {kt : Ty} {kvs : List (GoVal × GoVal)} : isRec (.map kt .any (normKVs d kvs)) = false := by
+  cases h : isRec (.map kt .any (normKVs d kvs)) with
   | false => rfl
   | true =>
     obtain ⟨cyc, rest, h⟩ := (isRec_iff _).mp h
@@ -161,7 +164,7 @@ theorem isRec_norm_map {kt : Ty} {kvs : List (GoVal × GoVal)} : isRec (.map kt 
       exact absurd h3.1.2 (norm_ne_priv v _ _)
 
 mutual
-theorem norm_idem : ∀ v : GoVal, v.norm.norm = v.norm
+theorem norm_idem : ∀ v : GoVal, (v.norm d).norm d = v.norm d
   | .drop v => by
     rw [dropRigid_false_norm_eq]
     split
@@ -177,16 +180,16 @@ theorem norm_idem : ∀ v : GoVal, v.norm.norm = v.norm
   | .nil | .bool _ | .int _ _ | .flt _ _ | .str _ | .bytes _
   | .mapSlice _ | .keyedMap _ | .range _ _ | .ptr _ | .nilPtr
   | .struct _ | .time _ => by simp [norm]
-theorem normList_idem : ∀ xs : List GoVal, normList (normList xs) = normList xs
+theorem normList_idem : ∀ xs : List GoVal, normList d (normList d xs) = normList d xs
   | [] => rfl
   | x :: xs => by simp only [normList, norm_idem x, normList_idem xs]
-theorem normKVs_idem : ∀ kvs : List (GoVal × GoVal), normKVs (normKVs kvs) = normKVs kvs
+theorem normKVs_idem : ∀ kvs : List (GoVal × GoVal), normKVs d (normKVs d kvs) = normKVs d kvs
   | [] => rfl
   | (k, v) :: r => by simp only [normKVs, norm_idem v, normKVs_idem r]
 end
 
-theorem RepEq.norm_left (a : GoVal) : RepEq a.norm a := norm_idem a
-theorem RepEq.norm_right (a : GoVal) : RepEq a a.norm := (norm_idem a).symm
+theorem RepEq.norm_left (a : GoVal) : RepEq d (a.norm d) a := norm_idem a
+theorem RepEq.norm_right (a : GoVal) : RepEq d a (a.norm d) := (norm_idem a).symm
 
 /-! ## `unwrap` -/
 
@@ -206,16 +209,19 @@ theorem unwrap_toLiquid (v : GoVal) : v.toLiquid.unwrap = v.unwrap := by
   split <;> simp [unwrap]
 
 theorem norm_map_nonrec {kt vt kvs} (h : isRec (.map kt vt kvs) = false) :
-    (GoVal.map kt vt kvs).norm = .map kt .any (normKVs kvs) := by
+    (GoVal.map kt vt kvs).norm d = .map kt .any (normKVs d kvs) := by
   rw [norm]; simp [h]
 
-theorem norm_drop_nonrigid {v : GoVal} (h : dropRigid v = false) : (GoVal.drop v).norm = v.norm := by
+theorem norm_drop_nonrigid {v : GoVal} (h : dropRigid v = false) : (GoVal.drop v).norm true = v.norm true := by
   rw [norm]; simp [h]
 
-theorem norm_drop_rigid {v : GoVal} (h : dropRigid v = true) : (GoVal.drop v).norm = .drop v := by
+theorem norm_drop_false (v : GoVal) : (GoVal.drop v).norm false = .drop v := by
+  rw [norm]; simp
+
+theorem norm_drop_rigid {v : GoVal} (h : dropRigid v = true) : (GoVal.drop v).norm d = .drop v := by
   rw [norm]; simp [h]
 
-theorem unwrap_norm_stable (v : GoVal) : v.unwrap.norm = v.norm.unwrap.norm := by
+theorem unwrap_norm_stable (v : GoVal) : v.unwrap.norm d = (v.norm d).unwrap.norm d := by
   induction v using GoVal.unwrap.induct with
   | case1 v ih =>
     rw [dropRigid_false_norm_eq]
@@ -246,7 +252,7 @@ theorem unwrap_norm_stable (v : GoVal) : v.unwrap.norm = v.norm.unwrap.norm := b
     | _ => simp [unwrap, norm]
 
 /-- `ValueOf(·).Interface()` respects representation equivalence -/
-theorem RepEq.unwrap {a b : GoVal} (h : RepEq a b) : RepEq a.unwrap b.unwrap := by
+theorem RepEq.unwrap {a b : GoVal} (h : RepEq d a b) : RepEq d a.unwrap b.unwrap := by
   unfold RepEq at *
   rw [unwrap_norm_stable a, unwrap_norm_stable b, h]
 
@@ -257,10 +263,10 @@ def rigidHead : GoVal → Bool
   | .drop _ | .slice _ _ | .array _ _ | .map _ _ _ => false
   | _ => true
 
-theorem norm_of_rigidHead {u : GoVal} (h : rigidHead u = true) : u.norm = u := by
+theorem norm_of_rigidHead {u : GoVal} (h : rigidHead u = true) : u.norm d = u := by
   cases u <;> simp_all [rigidHead, norm]
 
-theorem norm_inv_rigid {u u' : GoVal} (hu : rigidHead u = true) (hu' : noDrop u' = true) (h : RepEq u u') : u' = u := by
+theorem norm_inv_rigid {u u' : GoVal} (hu : rigidHead u = true) (hu' : noDrop u' = true) (h : RepEq d u u') : u' = u := by
   unfold RepEq at h
   rw [norm_of_rigidHead hu] at h
   cases u' with
@@ -279,11 +285,11 @@ def seqElems? : GoVal → Option (List GoVal)
   | .slice _ xs | .array _ xs => some xs
   | _ => none
 
-theorem norm_of_seq {u : GoVal} {xs : List GoVal} (h : seqElems? u = some xs) : u.norm = .slice .any (normList xs) := by
+theorem norm_of_seq {u : GoVal} {xs : List GoVal} (h : seqElems? u = some xs) : u.norm d = .slice .any (normList d xs) := by
   cases u <;> simp_all [seqElems?, norm]
 
 theorem norm_inv_seq {u u' : GoVal} {xs : List GoVal} (hu : seqElems? u = some xs) (hu' : noDrop u' = true)
-    (h : RepEq u u') : ∃ xs', seqElems? u' = some xs' ∧ normList xs = normList xs' := by
+    (h : RepEq d u u') : ∃ xs', seqElems? u' = some xs' ∧ normList d xs = normList d xs' := by
   unfold RepEq at h
   rw [norm_of_seq hu] at h
   cases u' with
@@ -296,9 +302,9 @@ theorem norm_inv_seq {u u' : GoVal} {xs : List GoVal} (hu : seqElems? u = some x
     | false => rw [norm_map_nonrec hr] at h; simp at h
   | _ => simp [norm] at h
 
-theorem norm_inv_map {kt vt kvs} {u' : GoVal} (hu' : noDrop u' = true) (h : RepEq (.map kt vt kvs) u') :
+theorem norm_inv_map {kt vt kvs} {u' : GoVal} (hu' : noDrop u' = true) (h : RepEq d (.map kt vt kvs) u') :
     u' = .map kt vt kvs ∨
-    (isRec (.map kt vt kvs) = false ∧ ∃ vt' kvs', u' = .map kt vt' kvs' ∧ isRec u' = false ∧ normKVs kvs = normKVs kvs') := by
+    (isRec (.map kt vt kvs) = false ∧ ∃ vt' kvs', u' = .map kt vt' kvs' ∧ isRec u' = false ∧ normKVs d kvs = normKVs d kvs') := by
   cases hr : isRec (.map kt vt kvs) with
   | true => exact .inl (h.rec_eq (.inl hr)).symm
   | false =>
